@@ -173,7 +173,7 @@ def radio_call(ck, skip_defined=False):
         radio_cfg = types.SimpleNamespace(low_frequency=S(sp.Symbol("lo", positive=True), "py"), high_frequency=S(sp.Symbol("hi", positive=True), "py"))
         cfg = types.SimpleNamespace(detector=types.SimpleNamespace(radio=radio_cfg, initial_position=types.SimpleNamespace(altitude=S(zdet, "py"))),
                                     simulation=types.SimpleNamespace(ionosphere=types.SimpleNamespace(total_electron_content=S(sp.Symbol("TEC", real=True), "py"), total_electron_error=S(sp.Symbol("TECerr", positive=True), "py"))))
-        r = object.__new__(RM.EASRadio)
+        r = harness.partial(RM.EASRadio)
         r.config = cfg
         it.base_facts = list(base)
         args = [A((ev,), sy[n], sp.true, origin=n) for n in ("beta", "altDec", "lenDec", "theta", "pathLen", "showerEnergy")]
